@@ -1,5 +1,6 @@
 """C01 — every conformant spelling of a value reads back as that value, for every buffer size / offset."""
 import io
+import sys
 
 from hypothesis import strategies as st
 
@@ -58,6 +59,17 @@ def _read_doc(data, n):
 
 
 def run_case(case):
+    # the harness's own recursive helpers (serialiser, comparison, JSON encoding) need head-room for the 300-level
+    # values of the thorough tier; pdfminer's parser keeps an explicit context stack and does not recurse
+    old_limit = sys.getrecursionlimit()
+    sys.setrecursionlimit(max(old_limit, 20000))
+    try:
+        return _run_case(case)
+    finally:
+        sys.setrecursionlimit(old_limit)
+
+
+def _run_case(case):
     mode = case["mode"]
     data = case["data"]
     exp = W.expected(case["value"])
@@ -88,7 +100,7 @@ def run_case(case):
 @st.composite
 def cases(draw, mode, max_leaves, str_max, deep=False):
     if deep:
-        v = S.deep_value(draw(st.integers(50, 300)), draw(S.leaves(20)))
+        raise ValueError("deep cases are built outside Hypothesis, see deep_cases()")
     else:
         v = draw(S.values(max_leaves, str_max))
     ch = W.Drawn(draw)
@@ -131,15 +143,37 @@ def plan(tier):
     q = tier == "quick"
     specs = []
     for i in range(16):
-        specs.append({"mode": "stream", "n": 1500 if q else 30000, "leaves": 12 if q else 25, "str": 40 if q else 200})
+        specs.append({"mode": "stream", "n": 1500 if q else 12000, "leaves": 12 if q else 25, "str": 40 if q else 200})
     for i in range(8):
-        specs.append({"mode": "doc", "n": 300 if q else 6000, "leaves": 10 if q else 20, "str": 40 if q else 200})
+        specs.append({"mode": "doc", "n": 300 if q else 2500, "leaves": 10 if q else 20, "str": 40 if q else 200})
     if not q:
         for i in range(4):
             specs.append({"mode": "stream", "n": 300, "leaves": 1, "str": 20, "deep": True})
     return specs
 
 
+def deep_cases(seed, n):
+    """Values nested 50-300 levels deep.  Built with a seeded PRNG outside Hypothesis, which manages the interpreter's
+    recursion limit itself and leaves the harness's recursive helpers too little room."""
+    import random
+
+    rnd = random.Random(seed)
+    leaves = [None, True, 7, W.Real("1.5"), W.N("Nm"), b"s(t)r", W.R(3), [], {}]
+    for _ in range(n):
+        v = [S.deep_value(rnd.randint(50, 300), rnd.choice(leaves))]
+        ch = W.Rand(rnd)
+        toks = []
+        W.tokens(ch, v, toks)
+        data = W.join(ch, toks, lead=True, trail=True)
+        yield {"mode": "stream", "value": v, "data": data, "spelled": data[:300], "bufsizes": sorted(rnd.sample(BUFS, 3)),
+               "features": sorted(ch.features | {"deep-nesting"})}
+
+
 def run_shard(spec, ctx):
+    if spec.get("deep"):
+        from vlib.runner import enum_search
+
+        sys.setrecursionlimit(30000)
+        return enum_search(ctx, deep_cases(ctx.hseed("deep"), spec["n"]), run_case)
     return hyp_search(ctx, cases(spec["mode"], spec["leaves"], spec["str"], spec.get("deep", False)), run_case,
                       spec["n"])
